@@ -1563,16 +1563,19 @@ static void janet_chanat_marshal(void *p, JanetMarshalContext *ctx) {
 
 static void *janet_chanat_unmarshal(JanetMarshalContext *ctx) {
     uint8_t is_threaded = janet_unmarshal_byte(ctx);
+    /* Read (and check) the plain fields before the channel is allocated: once it is on the heap its
+     * finalizer will run, so it must never be left uninitialized by an error raised in between.
+     * (Allocating consumes no input, so the order of these reads relative to it is free.) */
+    uint8_t is_closed = janet_unmarshal_byte(ctx);
+    int32_t limit = janet_unmarshal_int(ctx);
+    int32_t count = janet_unmarshal_int(ctx);
+    if (count < 0) janet_panic("invalid negative channel count");
     JanetChannel *abst;
     if (is_threaded) {
         abst = janet_unmarshal_abstract_threaded(ctx, sizeof(JanetChannel));
     } else {
         abst = janet_unmarshal_abstract(ctx, sizeof(JanetChannel));
     }
-    uint8_t is_closed = janet_unmarshal_byte(ctx);
-    int32_t limit = janet_unmarshal_int(ctx);
-    int32_t count = janet_unmarshal_int(ctx);
-    if (count < 0) janet_panic("invalid negative channel count");
     janet_chan_init(abst, limit, 0);
     abst->closed = !!is_closed;
     for (int32_t i = 0; i < count; i++) {
